@@ -50,6 +50,9 @@ class Monitor:
     def on_reward(self, ctx, t, r):
         pass
 
+    def before_query(self, ctx):
+        pass
+
     def on_query(self, ctx, point):
         pass
 
@@ -163,7 +166,7 @@ def crash_info(e, phase, rnd):
 
 
 def drive(case, monitors, learner_cls=None, step_limit=10 ** 7, wall_s=600, use_budget=True, part_cls=None,
-          lines=False):
+          lines=False, build_cm=None):
     """returns ctx.  Exceptions raised by PyXAB are recorded in ctx.crash (phase, round, type, innermost PyXAB
     frame); the monitors see everything that happened before."""
     hub = C.Hub()
@@ -189,7 +192,11 @@ def drive(case, monitors, learner_cls=None, step_limit=10 ** 7, wall_s=600, use_
                     budget.on()
                     budget.reset()
                 hub.phase = "init"
-                ctx.algo = C.build(case, P, learner_cls)
+                if build_cm is not None:
+                    with build_cm:
+                        ctx.algo = C.build(case, P, learner_cls)
+                else:
+                    ctx.algo = C.build(case, P, learner_cls)
                 if budget:
                     budget.note()
                 for m in monitors:
@@ -228,6 +235,8 @@ def drive(case, monitors, learner_cls=None, step_limit=10 ** 7, wall_s=600, use_
                         m.on_reward(ctx, t, r)
                     for _ in range(queries.get(i, 0)):
                         phase = hub.phase = "query"
+                        for m in monitors:
+                            m.before_query(ctx)
                         if budget:
                             budget.reset()
                         q = ctx.algo.get_last_point()
@@ -241,6 +250,8 @@ def drive(case, monitors, learner_cls=None, step_limit=10 ** 7, wall_s=600, use_
                         break
                 if ctx.stopped is None and not case.get("no_last"):
                     phase = hub.phase = "last"
+                    for m in monitors:
+                        m.before_query(ctx)
                     if budget:
                         budget.reset()
                     ctx.last = ctx.algo.get_last_point()
@@ -278,7 +289,7 @@ def drive(case, monitors, learner_cls=None, step_limit=10 ** 7, wall_s=600, use_
     return ctx
 
 
-def result_of(ctx, monitors, owner_of_crashes=False, nontrivial=None):
+def result_of(ctx, monitors, owner_of_crashes=False, nontrivial=None, prefix=None):
     """fold a finished run into the JSON result the runner aggregates.  A crash of PyXAB is a violation only for the
     check that owns totality (C01); every other check notes it and judges what it saw before the crash."""
     res = {"viol": [], "obs": collections.Counter()}
@@ -295,7 +306,10 @@ def result_of(ctx, monitors, owner_of_crashes=False, nontrivial=None):
         else:
             res["crash_other"] = "%s:%s:%s" % (ctx.case.get("algo"), cr["exc"], cr["site"])
     for m in monitors:
-        res["viol"] += m.viol
+        for v in m.viol:
+            # shared runs, separate verdicts: a predicate owned by another property is ignored by this check
+            if prefix is None or ":" not in v["pred"] or v["pred"].startswith(prefix + ":"):
+                res["viol"].append(v)
         res["obs"].update(m.obs)
     res["obs"]["rounds"] += ctx.round
     res["obs"]["expansions_seen"] += ctx.hub.n_mc
